@@ -235,9 +235,15 @@ class FSCAlignment(TomographyInput):
     ) -> AnyArray[np.float32]:
         """Compute landscape."""
         mw = self._get_missing_wedge_mask(quaternion, backend)
-        return fsc_landscape(
+        lds = fsc_landscape(
             subvolume * mw,
             template * mw,
             max_shifts=max_shifts,
             backend=backend,
         )
+        # crop to +-int(max_shifts) for the consistency with other alignment models.
+        sl = tuple(
+            slice(w, s - w)
+            for w, s in zip((int(np.ceil(m)) - int(m) for m in max_shifts), lds.shape)
+        )
+        return lds[sl]
